@@ -104,7 +104,12 @@ def replay_lsq(rec, ctx):
     for dt in rec.get("reprs", ["float64"]):
         if dt == "float64":
             continue
-        Wi, bi = np.array(rec["W"], dtype=dt), np.array(rec["b"], dtype=dt)
+        if dt == "fortran":
+            # column-major geometry matrix, measurements as a strided view of a longer array
+            Wi = np.asfortranarray(np.array(rec["W"], dtype=float))
+            bi = np.repeat(np.array(rec["b"], dtype=float), 2)[::2]
+        else:
+            Wi, bi = np.array(rec["W"], dtype=dt), np.array(rec["b"], dtype=dt)
         xi, _ = invert_regularised_lstsq(Wi, bi, alpha=alpha, tikhonov_matrix=np.eye(2))
         if not core.close([float(v) for v in xi], [fr(p) for p in rec["lstsq"]], rtol=1e-9, atol=1e-12):
             bad(f"lstsq:not-the-minimiser[{dt}-arrays]", f"x = {list(xi)}, exact {[fr(p) for p in rec['lstsq']]}")
